@@ -3,8 +3,9 @@
 Pipeline (DESIGN.md §5 C18, design.d/C18.md):
   1. TLC model-checks spec/conc/WSMux.tla (the upstream WebSocket multiplexer at the grain of its critical
      sections, modelled as the code is): Routed, TerminalLocal, NothingAfterTerminal, SharedOnlyIfSameKey, NoLeak,
-     NoStall hold; CancelIsolated is violated in exactly the three known shapes (negative runs); thorough also
-     checks that the repaired protocol (Fixed = TRUE) satisfies everything.
+     NoStall hold; the pinned protocol (Fixes = {}) violates CancelIsolated in exactly the three recorded shapes
+     (negative runs); the model of the tree under test (Fixes = the repairs whose findings are marked fixed in
+     findings.d/C18.json) must also satisfy CancelIsolated* / NoStaleEntry / AllTracked for the repaired parts.
   2. TLC (Gen_WSMux) enumerates / samples behaviours as schedules of environment actions (Subscribe calls,
      ctx cancellations - also before the call and while a shared connection is dialled / initialised -, gate
      releases of the upstream server, scripted next/complete/error frames, drops, idle waits).
@@ -27,7 +28,12 @@ INVS = ["TypeOK", "Routed", "TerminalLocal", "NothingAfterTerminal", "SharedOnly
 NEGATIVE = ["CancelIsolatedDial", "CancelIsolatedWrite", "CancelIsolatedClose"]
 TIMING_EVENTS = ("end", "idlewait", "stats", "srv.open", "quiet")
 IDLE_MS = 30
-FINDINGS_FRAGMENT = os.path.join(lib.VERIF, "findings.d", "C18.json")
+FINDINGS_FRAGMENT = os.environ.get("VERIF_C18_FRAGMENT") or os.path.join(lib.VERIF, "findings.d", "C18.json")
+# finding key -> name of the repair in WSMux.tla (constant Fixes); the repair is assumed present iff the entry is "fixed"
+FIX_OF_KEY = {"ws:CancelIsolated:foreign_dial": "dial", "ws:CancelIsolated:foreign_write": "write",
+              "ws:CancelIsolated:foreign_close": "close", "ws:bookkeeping:removeConn-by-key": "map"}
+INV_OF_FIX = {"dial": ["CancelIsolatedDial"], "write": ["CancelIsolatedWrite"], "close": ["CancelIsolatedClose"],
+              "map": ["NoStaleEntry", "AllTracked"]}
 
 WHAT = {
     "foreign_dial": "a subscriber that did not cancel got the dialling subscriber's context cancellation from the coalesced dial",
@@ -43,7 +49,7 @@ MC_CFG = """CONSTANTS
   MaxConn = %(MaxConn)d
   MaxFrames = %(F)d
   MaxCancels = %(C)d
-  Fixed = %(Fixed)s
+  Fixes = %(Fixes)s
 SPECIFICATION %(spec)s
 INVARIANTS %(invs)s
 CHECK_DEADLOCK FALSE
@@ -51,19 +57,46 @@ CHECK_DEADLOCK FALSE
 
 
 def load_fragment_findings(ctx):
-    """known-findings.json is merged by the coordinator from findings.d/*.json; until then read our fragment too."""
+    """known-findings.json is merged by the coordinator from findings.d/*.json; our fragment is the fresher source
+    (it is swapped when fixes are committed), so its entries replace those with the same key.
+    Returns the set of repairs that are in the tree according to the statuses."""
     known = list(ctx.known())
     try:
         with open(FINDINGS_FRAGMENT) as f:
             for k in json.load(f):
-                if not any(x.get("property") == k.get("property") and x.get("key") == k.get("key") for x in known):
-                    known.append(k)
+                known = [x for x in known if not (x.get("property") == k.get("property") and x.get("key") == k.get("key"))]
+                known.append(k)
     except FileNotFoundError:
         pass
     ctx._known = known
+    return {FIX_OF_KEY[k["key"]] for k in known if k.get("property") == "C18" and k.get("status") == "fixed" and k.get("key") in FIX_OF_KEY}
 
 
-def mc(ctx, name, N, MaxConn, F, C, fixed, invs, spec="Spec", timeout=1700, count=True, workers=None):
+def tla_set(xs):
+    return "{" + ", ".join('"%s"' % x for x in sorted(xs)) + "}"
+
+
+def prepare_specs(ctx, fixes):
+    """Private copy of spec/conc with the constant Fixes of every WSMux configuration set to the repairs in the tree;
+    the repairs that start over (dial, close) dial again, so the generator configurations get one more connection."""
+    d = ctx.path("spec-conc")
+    os.makedirs(d, exist_ok=True)
+    src = os.path.join(lib.SPEC, "conc")
+    for f in os.listdir(src):
+        if not (f.endswith(".tla") or f.endswith(".cfg")):
+            continue
+        with open(os.path.join(src, f)) as fh:
+            t = fh.read()
+        if f.endswith(".cfg") and "Fixes = {}" in t:
+            t = t.replace("Fixes = {}", "Fixes = " + tla_set(fixes))
+            if fixes & {"dial", "close"} and not f.startswith("Trace_"):
+                t = re.sub(r"MaxConn = (\d+)", lambda m: "MaxConn = %d" % (int(m.group(1)) + 1), t)
+        with open(os.path.join(d, f), "w") as fh:
+            fh.write(t)
+    return d
+
+
+def mc(ctx, name, N, MaxConn, F, C, fixes, invs, spec="Spec", timeout=1700, count=True, workers=None):
     d = ctx.path("mc-" + name)
     os.makedirs(d, exist_ok=True)
     for f in ("WSMux.tla", "MC_WSMux.tla"):
@@ -71,7 +104,7 @@ def mc(ctx, name, N, MaxConn, F, C, fixed, invs, spec="Spec", timeout=1700, coun
             dst.write(src.read())
     cfg = "MC_WSMux_%s.cfg" % name
     with open(os.path.join(d, cfg), "w") as f:
-        f.write(MC_CFG % {"N": N, "MaxConn": MaxConn, "F": F, "C": C, "Fixed": "TRUE" if fixed else "FALSE",
+        f.write(MC_CFG % {"N": N, "MaxConn": MaxConn, "F": F, "C": C, "Fixes": tla_set(fixes),
                           "spec": spec, "invs": " ".join(invs)})
     return ctx.tlc(d, "MC_WSMux", cfg, timeout=timeout, deadlock=True, count=count, tag="mc-" + name, workers=workers)
 
@@ -206,7 +239,7 @@ def to_schedule(idx, b, rng, mode="ws"):
     # every fourth schedule goes through the data-source wrapper (graphql_subscription_client.go); it has no idle timeout
     level = "ds" if b["idle"] == "zero" and rng.random() < 0.25 else "client"
     return {"id": "%s%d-%06d" % (mode, n, idx), "mode": mode, "level": level, "proto": proto, "variant": variant,
-            "idle_ms": 0 if b["idle"] == "zero" else IDLE_MS, "key": b["key"], "dialler": b["dialler"],
+            "idle_ms": 0 if b["idle"] == "zero" else IDLE_MS, "key": b["key"], "dialler": b["dialler"], "reach": b.get("reach"),
             "steps": b["steps"], "expect": b.get("exp")}
 
 
@@ -235,6 +268,9 @@ def run_harness(ctx, binary, scheds, tag, shards):
 _FINDING_RE = re.compile(r'<<"FINDING", "([^"]*)", "([^"]*)", (\d+)>>')
 
 
+SPECDIR = {"d": "conc"}  # set by _run: private copy of spec/conc with Fixes substituted
+
+
 def trace_module(events_path):
     return "Trace_SSEMux" if "-sse" in os.path.basename(events_path) else "Trace_WSMux"
 
@@ -242,7 +278,7 @@ def trace_module(events_path):
 def tlc_validate(ctx, events_path):
     """One TLC run over one event file. Returns (ok, findings, failure) with failure = (line, violated|None)."""
     mod = trace_module(events_path)
-    r = ctx.tlc("conc", mod, mod + ".cfg", workers=1, env={"TRACE": events_path}, timeout=2400,
+    r = ctx.tlc(SPECDIR["d"], mod, mod + ".cfg", workers=1, env={"TRACE": events_path}, timeout=2400,
                 deadlock=False, count=False, tag="trace-validation", heap="3g")
     findings = set(_FINDING_RE.findall(r.out))
     if r.ok:
@@ -370,7 +406,10 @@ def run(ctx):
 
 
 def _run(ctx):
-    load_fragment_findings(ctx)
+    fixes = load_fragment_findings(ctx)
+    SPECDIR["d"] = specdir = prepare_specs(ctx, fixes)
+    pos = INVS + [i for f in sorted(fixes) for i in INV_OF_FIX[f]]
+    ctx.log("repairs in the tree according to findings.d/C18.json: %s" % (tla_set(fixes),))
     rng = random.Random(ctx.seed)
     # other agents remove /verif/.build-* while testing their mutants: keep a private copy of the binary
     binary = shutil.copy(ctx.build("wsmux"), ctx.path("wsmux-bin"))
@@ -394,24 +433,37 @@ def _run(ctx):
     # ---- 1. model checking (in parallel with generation) ------------------------------------------
     pool = cf.ThreadPoolExecutor(max_workers=8)
     jobs = {}
+    retrying = bool(fixes & {"dial", "close"})  # these repairs dial again: bigger model, see design.d/C18.md
+    mcn = 3 if retrying else 2
     if quick:
-        jobs["mc2"] = pool.submit(mc, ctx, "2", 2, 2, 2, 1, False, INVS, workers=6, timeout=900)
+        if retrying:
+            jobs["mc2"] = pool.submit(mc, ctx, "2", 2, mcn, 2, 2, fixes, pos, spec="SpecQ", workers=6, timeout=900)
+        else:
+            jobs["mc2"] = pool.submit(mc, ctx, "2", 2, mcn, 2, 1, fixes, pos, workers=6, timeout=900)
     else:
-        jobs["mc2"] = pool.submit(mc, ctx, "2", 2, 2, 3, 2, False, INVS, workers=6)
-        jobs["mc3q"] = pool.submit(mc, ctx, "3q", 3, 3, 1, 1, False, INVS, spec="SpecQ", workers=6)
-        jobs["fixed"] = pool.submit(mc, ctx, "fixed", 2, 3, 1, 2, True, INVS + ["CancelIsolated", "NoStaleEntry", "AllTracked"], workers=4)
+        if retrying:
+            jobs["mc2"] = pool.submit(mc, ctx, "2", 2, mcn, 1, 1, fixes, pos, workers=8)
+            jobs["mc2q"] = pool.submit(mc, ctx, "2q", 2, mcn, 2, 2, fixes, pos, spec="SpecQ", workers=4)
+        else:
+            jobs["mc2"] = pool.submit(mc, ctx, "2", 2, mcn, 3, 2, fixes, pos, workers=6)
+        jobs["mc3q"] = pool.submit(mc, ctx, "3q", 3, mcn + 1, 1, 1, fixes, pos, spec="SpecQ", workers=6)
+        if fixes != set(INV_OF_FIX):
+            # the fully repaired protocol satisfies everything (slow upstream; full interleaving measured in design.d/C18.md)
+            jobs["fixed"] = pool.submit(mc, ctx, "fixed", 2, 3, 2, 2, set(INV_OF_FIX),
+                                        INVS + ["CancelIsolated", "NoStaleEntry", "AllTracked"], spec="SpecQ", workers=4)
+    # the pinned protocol violates CancelIsolated in exactly the recorded shapes (the specification is not vacuous)
     for inv in NEGATIVE:
-        jobs["neg-" + inv] = pool.submit(mc, ctx, "neg-" + inv, 2, 2, 1, 2, False, [inv], count=False, workers=2, timeout=600)
-    jobs["gen2"] = pool.submit(ctx.tlc, "conc", "Gen_WSMux", "Gen_WSMux_2.cfg", timeout=1200, deadlock=False, workers=4, tag="gen-2")
-    jobs["gen3"] = pool.submit(ctx.tlc, "conc", "Gen_WSMux", "Gen_WSMux_3.cfg", timeout=1700, deadlock=False, workers=1,
+        jobs["neg-" + inv] = pool.submit(mc, ctx, "neg-" + inv, 2, 2, 1, 2, set(), [inv], count=False, workers=2, timeout=600)
+    jobs["gen2"] = pool.submit(ctx.tlc, specdir, "Gen_WSMux", "Gen_WSMux_2.cfg", timeout=1200, deadlock=False, workers=4, tag="gen-2")
+    jobs["gen3"] = pool.submit(ctx.tlc, specdir, "Gen_WSMux", "Gen_WSMux_3.cfg", timeout=1700, deadlock=False, workers=1,
                                simulate=1200 if quick else 40000, depth=120, seed=ctx.seed, tag="gen-3-simulate")
-    jobs["mcsse"] = pool.submit(ctx.tlc, "conc", "MC_SSEMux", "MC_SSEMux_2.cfg", timeout=900, deadlock=False, workers=2, tag="mc-sse-2")
-    jobs["gensse"] = pool.submit(ctx.tlc, "conc", "Gen_SSEMux", "Gen_SSEMux_2.cfg", timeout=900, deadlock=False, workers=2, tag="gen-sse-2")
+    jobs["mcsse"] = pool.submit(ctx.tlc, specdir, "MC_SSEMux", "MC_SSEMux_2.cfg", timeout=900, deadlock=False, workers=2, tag="mc-sse-2")
+    jobs["gensse"] = pool.submit(ctx.tlc, specdir, "Gen_SSEMux", "Gen_SSEMux_2.cfg", timeout=900, deadlock=False, workers=2, tag="gen-sse-2")
     if not quick:
-        jobs["gensse3"] = pool.submit(ctx.tlc, "conc", "Gen_SSEMux", "Gen_SSEMux_3.cfg", timeout=1700, deadlock=False, workers=1,
+        jobs["gensse3"] = pool.submit(ctx.tlc, specdir, "Gen_SSEMux", "Gen_SSEMux_3.cfg", timeout=1700, deadlock=False, workers=1,
                                       simulate=8000, depth=80, seed=ctx.seed, tag="gen-sse-3-simulate")
     if not quick:
-        jobs["sim3"] = pool.submit(ctx.tlc, "conc", "MC_WSMux", "MC_WSMux_3_sim.cfg", timeout=1700, deadlock=False, workers=4,
+        jobs["sim3"] = pool.submit(ctx.tlc, specdir, "MC_WSMux", "MC_WSMux_3_sim.cfg", timeout=1700, deadlock=False, workers=4,
                                    simulate=150000, depth=80, seed=ctx.seed, tag="mc-3-simulate")
 
     # ---- 2. generation --------------------------------------------------------------------------------
@@ -498,6 +550,8 @@ def _run(ctx):
         "foreign_cancel_observations": len(findings),
         "invariants_on_traces": INVS,
         "expected_negative_model_runs": NEGATIVE,
+        "repairs_modelled": sorted(fixes),
+        "model_invariants": pos,
         "exhaustive": False,
     })
     ctx.assumptions += [
